@@ -762,3 +762,7 @@ SPECS["C11"]["level_text"] += "; the image-level interleaving monitor also cover
 SPECS["C04"]["bounded"] += [("contracts.e2e", "e2e:C02"), ("contracts.e2e_names", "e2e:cdda_names")]
 SPECS["C04"]["clause_prefixes"] = ["well-formed", "C04.", "nothing-exported", "no-undeclared-exception", "oracle."]
 SPECS["C04"]["level_text"] += ". The Roland (e2e:C02) and bin/cue (e2e:cdda_names) monitors' well-formedness clauses are part of this check"
+
+# C05 quantifies over AKAI volumes AND Roland performances
+SPECS["C05"]["bounded"].append(("contracts.e2e_names", "e2e:roland_pairs"))
+SPECS["C05"]["level_text"] += ". Added: BOUNDED L/R pairing inside Roland performances (either directory order, two pairs, mixed names)"
